@@ -37,6 +37,7 @@ extern "C"
 }
 
 using namespace hv;
+static const char *const FNS_[8] = {"l", "ul", "ll", "ull", "imax", "umax", "q", "uq"};
 typedef std::vector<uint8_t> bytes;
 typedef unsigned __int128 u128;
 
@@ -297,6 +298,172 @@ static std::vector<int> ints(const std::string &s)
         i = j + 1;
     }
     return v;
+}
+
+// ------------------------------------------------------------ nested calls (re-entrancy)
+// A comparator may itself call qsort / bsearch / strto* on OTHER data (rows ordered by their sorted
+// contents, keys parsed from text ...): it is still a pure function of its two arguments, so the
+// property's clauses hold for the outer call and for every nested call.  `nested_work` runs, from inside
+// a comparator of an outer qsort/bsearch (on this thread, or on a second thread that is joined before the
+// comparator returns, so that the two calls overlap in time deterministically), a complete qsort of a
+// private array, bsearch/upper_bound/lower_bound on another one and one strto* call; each is judged on
+// its own (independent oracles), and must give what the same call gives when it runs alone afterwards.
+#include <pthread.h>
+static struct
+{
+    unsigned what = 0;              // bit 0 qsort, 1 bsearch+bounds, 2 strto*, 3 on a second thread
+    unsigned long when = 0;         // 0: every comparator call, k: only the k-th
+    unsigned long calls = 0, ran = 0;
+    unsigned iesize = 1;
+    std::vector<int> ikeys;
+    std::string fn;
+    int base = 10;
+    bytes text;
+    std::string inner_seen, st_seen, bad;
+} N;
+static void nbad(const std::string &s)
+{
+    if (N.bad.empty()) N.bad = s;
+}
+static int in_cmp(const void *a, const void *b) { return (int)*(const uint8_t *)a - (int)*(const uint8_t *)b; }
+static int in_kcmp(const void *k, const void *e) { return *(const int *)k - (int)*(const uint8_t *)e; }
+static void nested_do(unsigned what)
+{
+    size_t n = N.ikeys.size();
+    unsigned es = N.iesize;
+    if (what & 1)
+    {
+        exact_buf a(n * es);
+        std::vector<bytes> orig, now;
+        for (size_t i = 0; i < n; i++)
+        {
+            put_elem(a.p + i * es, es, N.ikeys[i], (unsigned)i);
+            orig.emplace_back(a.p + i * es, a.p + (i + 1) * es);
+        }
+        igv_qsort(a.p, n, es, in_cmp);
+        std::vector<std::pair<int, int>> el;
+        for (size_t i = 0; i < n; i++)
+        {
+            const uint8_t *e = a.p + i * es;
+            now.emplace_back(e, e + es);
+            el.emplace_back(e[0], es > 1 ? e[1] : 0);
+            if (!elem_intact(e, es)) nbad("nested qsort: an element is a mixture of bytes of different elements");
+            if (i && a.p[(i - 1) * es] > e[0]) nbad("nested qsort: not ordered at index " + std::to_string(i - 1));
+        }
+        std::sort(orig.begin(), orig.end());
+        std::sort(now.begin(), now.end());
+        if (orig != now) nbad("nested qsort: result is not a permutation of the input");
+        std::string c = canon_runs(0, el, es > 1);
+        if (N.inner_seen.empty()) N.inner_seen = c;
+        else if (N.inner_seen != c) nbad("nested qsort: two calls with the same arguments gave different results");
+    }
+    if ((what & 2) && n)
+    {
+        std::vector<int> sk = N.ikeys;
+        std::sort(sk.begin(), sk.end());
+        exact_buf a(n * es);
+        for (size_t i = 0; i < n; i++) put_elem(a.p + i * es, es, sk[i], (unsigned)i);
+        for (int key : {N.ikeys[0], 255, N.ikeys[n / 2] + 1, 0})
+        {
+            exact_buf kb(sizeof(int));
+            memcpy(kb.p, &key, sizeof key);
+            const uint8_t *q = (const uint8_t *)igv_bsearch(kb.p, a.p, n, es, in_kcmp);
+            bool exists = std::binary_search(sk.begin(), sk.end(), key);
+            if ((q != 0) != exists) nbad("nested bsearch: key " + std::to_string(key) + (exists ? " exists but NULL was returned" : " does not exist but an element was returned"));
+            else if (q && (q < a.p || q >= a.p + n * es || (size_t)(q - a.p) % es || q[0] != key)) nbad("nested bsearch: wrong element returned");
+            const uint8_t *u = (const uint8_t *)igv_upper_bound(kb.p, a.p, n, es, in_kcmp);
+            const uint8_t *l = (const uint8_t *)igv_lower_bound(kb.p, a.p, n, es, in_kcmp);
+            if (u != a.p + (size_t)(std::upper_bound(sk.begin(), sk.end(), key) - sk.begin()) * es) nbad("nested upper_bound: not the first element greater than the key");
+            if (l != a.p + (size_t)(std::lower_bound(sk.begin(), sk.end(), key) - sk.begin()) * es) nbad("nested lower_bound: not the first element not less than the key");
+        }
+    }
+    if (what & 4)
+    {
+        bytes z = N.text;
+        z.push_back(0);
+        exact_buf b(z);
+        const char *s = (const char *)b.p;
+        char *end = (char *)1;
+        const std::string &fn = N.fn;
+        bool sg = fn == "l" || fn == "ll" || fn == "imax" || fn == "q";
+        int saved = errno;
+        errno = 9999;
+        uint64_t v = fn == "l" ? (uint64_t)igv_strtol(s, &end, N.base) : fn == "ul" ? igv_strtoul(s, &end, N.base) : fn == "ll" ? (uint64_t)igv_strtoll(s, &end, N.base)
+                   : fn == "ull" ? igv_strtoull(s, &end, N.base) : fn == "imax" ? (uint64_t)igv_strtoimax(s, &end, N.base) : fn == "umax" ? igv_strtoumax(s, &end, N.base)
+                   : fn == "q" ? (uint64_t)igv_strtoq(s, &end, N.base) : igv_strtouq(s, &end, N.base);
+        int ierr = errno;
+        errno = saved;
+        parsed p = ref_parse(N.text, N.base);
+        uint64_t rv = sg ? ref_signed(p) : ref_unsigned(p);
+        long re = p.conv ? (long)p.end : 0;
+        bool range = p.conv && (sg ? (p.neg ? p.mag > ((u128)1 << 63) : p.mag > (u128)INT64_MAX) : p.huge);
+        if (v != rv || end - s != re) nbad("nested strto" + fn + ": ISO 7.22.1.4 expects " + hexn(rv, 16) + " end " + std::to_string(re) + ", got " + hexn(v, 16) + " end " + std::to_string((long)(end - s)));
+        if (range != (ierr == ERANGE)) nbad("nested strto" + fn + ": errno ERANGE iff the value is out of range");
+        std::string c = hexn(v, 16) + " " + std::to_string((long)(end - s)) + " " + (ierr == 9999 ? "0" : ierr == ERANGE ? "ERANGE" : ierr == EINVAL ? "EINVAL" : std::to_string(ierr));
+        if (N.st_seen.empty()) N.st_seen = c;
+        else if (N.st_seen != c) nbad("nested strto*: two calls with the same arguments gave different results");
+    }
+}
+static void *nested_thread(void *w)
+{
+    nested_do(*(unsigned *)w);
+    return 0;
+}
+static void nested_work(unsigned what)
+{
+    N.ran++;
+    if (what & 8)
+    {
+        pthread_t t;
+        unsigned w = what & 7;
+        if (pthread_create(&t, 0, nested_thread, &w)) { nbad("pthread_create failed"); return; }
+        pthread_join(t, 0);
+    }
+    else
+        nested_do(what);
+}
+static void nested_hook()
+{
+    N.calls++;
+    if (N.what && (N.when == 0 || N.calls == N.when)) nested_work(N.what);
+}
+static int qsn_compar(const void *a, const void *b)
+{
+    int r = qs_compar(a, b); // the arguments are judged first ...
+    nested_hook();           // ... then other calls run while the outer one is in the middle of its work
+    return r;
+}
+static int bsn_compar(const void *a, const void *b)
+{
+    nested_hook();
+    return bs_compar(a, b);
+}
+// fields k.. of an op: <when> <what> <iesize> <ikeys> <fn> <base> <hextext>
+static bool nested_setup(const std::vector<std::string> &w, size_t k)
+{
+    N.when = strtoul(w[k].c_str(), 0, 10);
+    N.what = (unsigned)atoi(w[k + 1].c_str());
+    N.iesize = (unsigned)atoi(w[k + 2].c_str());
+    N.ikeys = ints(w[k + 3]);
+    N.fn = w[k + 4];
+    N.base = atoi(w[k + 5].c_str());
+    N.text = unhex(w[k + 6]);
+    N.calls = N.ran = 0;
+    N.inner_seen.clear();
+    N.st_seen.clear();
+    N.bad.clear();
+    static const std::set<std::string> fns(FNS_, FNS_ + 8);
+    return N.iesize >= 1 && fns.count(N.fn);
+}
+// after the outer call: the same calls alone ("one after the other") must give what the nested ones gave
+static std::string nested_finish(out &o)
+{
+    unsigned long ran = N.ran;
+    N.what = 0;
+    nested_do(7);
+    if (!N.bad.empty()) o.fail(N.bad);
+    o.tag(ran == 0 ? "nested-none" : ran == 1 ? "nested-once" : "nested-every-call");
+    return " | " + N.inner_seen + " | " + N.st_seen;
 }
 
 // ------------------------------------------------------------ before main()
@@ -622,13 +789,17 @@ static void run_op(const std::vector<std::string> &w, const std::string &, out &
         if (n >= 8) o.tag("deep");
         return;
     }
-    if (op == "qs")
+    if (op == "qs" || op == "qsn")
     {
         // qs <esize> <cmpkind> <seed> <k0,k1,...>
+        // qsn <esize> <cmpkind> <seed> <when> <what> <iesize> <ikeys> <fn> <base> <hextext> <k0,k1,...>: the comparator
+        //     runs nested qsort / bsearch / strto* calls on other data (see nested_work)
+        bool nest = op == "qsn";
+        if (nest && (w.size() < 12 || !nested_setup(w, 4))) { o.result = "bad-op"; return; }
         unsigned esize = atoi(w[1].c_str());
         int kind = atoi(w[2].c_str());
         unsigned seed = (unsigned)strtoul(w[3].c_str(), 0, 10);
-        std::vector<int> keys = ints(w[4]);
+        std::vector<int> keys = ints(w[nest ? 11 : 4]);
         size_t n = keys.size();
         exact_buf a(n * esize);
         std::vector<bytes> orig;
@@ -640,7 +811,7 @@ static void run_op(const std::vector<std::string> &w, const std::string &, out &
         L = {kind, a.p, n, esize, nullptr, &orig, "", 0, 0};
         const uint8_t *fp0 = (const uint8_t *)__builtin_frame_address(0);
         igv_srand(seed);
-        igv_qsort(a.p, n, esize, qs_compar);
+        igv_qsort(a.p, n, esize, nest ? qsn_compar : qs_compar);
         std::vector<bytes> now;
         std::vector<std::pair<int, int>> el;
         for (size_t i = 0; i < n; i++)
@@ -654,6 +825,7 @@ static void run_op(const std::vector<std::string> &w, const std::string &, out &
         // arrangement inside a class: the result is the canonical form (runs of equal elements sorted)
         o.result = canon_runs(kind, el, esize > 1);
         if (!L.bad.empty()) o.fail(L.bad);
+        if (nest) o.result += nested_finish(o);
         if (L.stack_lo && n >= 64 && (size_t)(fp0 - L.stack_lo) >= n * 96) o.tag("recursion-depth~nmemb");
         for (size_t i = 0; i + 1 < n; i++)
             if (cmp_keys(kind, now[i + 1][0], now[i][0]) < 0)
@@ -732,6 +904,75 @@ static void run_op(const std::vector<std::string> &w, const std::string &, out &
         o.tag(exists ? "present" : "absent");
         if (std::set<int>(keys.begin(), keys.end()).size() < n) o.tag("dups");
         if (n >= 8) o.tag("deep");
+        return;
+    }
+    if (op == "bsn")
+    {
+        // bsn <esize> <cmpkind> <key> <when> <what> <iesize> <ikeys> <fn> <base> <hextext> <k0,k1,...>: bsearch, upper_bound and
+        // lower_bound on one ordered array with a comparator that runs nested qsort / bsearch / strto* calls on other data
+        if (w.size() < 12 || !nested_setup(w, 4)) { o.result = "bad-op"; return; }
+        unsigned esize = atoi(w[1].c_str());
+        int kind = atoi(w[2].c_str());
+        int key = atoi(w[3].c_str());
+        std::vector<int> keys = ints(w[11]);
+        size_t n = keys.size();
+        exact_buf a(n * esize, n || (key & 1) ? 0 : 16);
+        for (size_t i = 0; i < n; i++) put_elem(a.p + i * esize, esize, keys[i], (unsigned)i);
+        exact_buf kb(sizeof(int));
+        memcpy(kb.p, &key, sizeof key);
+        unsigned what = N.what;
+        std::string res;
+        for (int which = 0; which < 3; which++)
+        {
+            L = {kind, a.p, n, esize, kb.p, nullptr, "", 0, 0};
+            N.calls = 0;
+            N.what = what;
+            const uint8_t *r = (const uint8_t *)(which == 0 ? igv_bsearch : which == 1 ? igv_upper_bound : igv_lower_bound)(kb.p, a.p, n, esize, bsn_compar);
+            if (!L.bad.empty()) o.fail(L.bad);
+            if (which == 0)
+            {
+                bool exists = false;
+                for (size_t i = 0; i < n; i++)
+                    if (cmp_keys(kind, key, keys[i]) == 0) exists = true;
+                if (!r)
+                {
+                    res = "null";
+                    if (exists) o.fail("an element equal to the key exists but NULL was returned");
+                }
+                else if (!in_array(r))
+                {
+                    res = "outside";
+                    o.fail("returned pointer is not an element of the array");
+                }
+                else
+                {
+                    size_t i = (size_t)(r - a.p) / esize, lo = i, hi = i;
+                    while (lo > 0 && cmp_keys(kind, key, keys[lo - 1]) == 0) lo--;
+                    while (hi + 1 < n && cmp_keys(kind, key, keys[hi + 1]) == 0) hi++;
+                    res = "found " + std::to_string(lo) + ".." + std::to_string(hi);
+                    if (cmp_keys(kind, key, keys[i]) != 0) o.fail("returned element does not compare equal to the key");
+                }
+                o.tag(exists ? "present" : "absent");
+            }
+            else
+            {
+                bool up = which == 1;
+                size_t exp = up ? (size_t)(std::upper_bound(keys.begin(), keys.end(), key, [&](int k, int el) { return cmp_keys(kind, k, el) < 0; }) - keys.begin())
+                                : (size_t)(std::lower_bound(keys.begin(), keys.end(), key, [&](int el, int k) { return cmp_keys(kind, k, el) > 0; }) - keys.begin());
+                long off = r - a.p;
+                if (off < 0 || off > (long)(n * esize) || off % (long)esize != 0)
+                {
+                    res += " outside(" + std::to_string(off) + ")";
+                    o.fail("returned pointer is outside [base, base + nmemb*size] (byte offset " + std::to_string(off) + ")");
+                }
+                else
+                {
+                    res += " " + std::to_string((size_t)off / esize);
+                    if ((size_t)off / esize != exp) o.fail(std::string(up ? "std::upper_bound" : "std::lower_bound") + " gives index " + std::to_string(exp) + ", got " + std::to_string((size_t)off / esize));
+                }
+            }
+        }
+        o.result = res + nested_finish(o);
         return;
     }
     if (op == "qsg")
@@ -1584,6 +1825,50 @@ static void gen_round3(rng &r, bool th)
     printf("rnd 1 300\nrnd 0 300\nrnd 204814686 50\nrnd 204814687 50\nrndr 204814687 50\n");
 }
 
+// ------------------------------------------------------------ round 3b: re-entrancy
+// qsn / bsn: the comparator of an outer qsort / bsearch / upper_bound / lower_bound runs complete nested
+// calls (qsort of a private array, bsearch + bounds, one strto*) at the k-th comparator call or at every
+// call, on this thread or on a second one.  Element sizes on both sides of 64 (a shared static buffer with
+// an alloca fallback has such a limit), inner keys mostly disjoint from the outer ones (a pivot copy that
+// is overwritten by the inner call then compares unlike any element of the outer array).
+static void gen_nested(rng &r, bool th)
+{
+    static const std::vector<unsigned> osz = {1, 2, 3, 4, 8, 12, 16, 32, 33, 63, 64, 65, 100};
+    static const std::vector<unsigned> isz = {1, 2, 4, 4, 8, 16, 32, 64, 65, 80};
+    static const std::vector<std::pair<int, const char *>> texts = {{10, "-9223372036854775808"}, {10, "9223372036854775808"}, {10, "18446744073709551615"}, {10, " -18446744073709551616x"},
+                                                                     {0, "0x7fZ"}, {16, "\t-0x"}, {36, "1y2p0ij32e8e8"}, {36, "-1Y2P0IJ32E8E7 "}, {0, "017777777777777777777778"}, {2, "+1012"}, {10, ""}, {7, "  66x"}};
+    auto tailf = [&](char *buf, size_t sz) {
+        std::vector<int> ik(r.pick(std::vector<int>{4, 4, 5, 8, 12, 0, 3}));
+        bool disjoint = r.chance(80);
+        for (auto &x : ik) x = disjoint ? 100 + (int)r.below(150) : (int)r.below(6);
+        auto &t = r.pick(texts);
+        snprintf(buf, sz, "%u %s %s %d %s", (unsigned)r.pick(isz), join(ik).c_str(), FNS_[r.below(8)], t.first, hex(std::string(t.second)).c_str());
+    };
+    char tl[512];
+    for (int rep = 0; rep < (th ? 12 : 3); rep++)
+        for (int n : {0, 1, 3, 4, 5, 6, 8, 12, 20, 40})
+            for (unsigned long when : {0ul, 1ul, 2ul, 3ul, 5ul, 9ul})
+            {
+                std::vector<int> v(n);
+                int m = (int)r.pick(std::vector<int>{2, 5, 40, 100});
+                for (auto &x : v) x = (int)r.below(m);
+                tailf(tl, sizeof tl);
+                printf("qsn %u %d %u %lu %d %s %s\n", (unsigned)r.pick(osz), (int)r.below(7), (unsigned)r.next(), when, (int)r.pick(std::vector<int>{1, 1, 1, 2, 4, 7, 9, 15, 3, 5}), tl, join(v).c_str());
+            }
+    for (int rep = 0; rep < (th ? 8 : 2); rep++)
+        for (int n : {0, 1, 2, 5, 9, 17, 40})
+            for (unsigned long when : {0ul, 1ul, 2ul, 4ul})
+            {
+                int kind = (int)r.below(7);
+                std::vector<int> v(n);
+                int m = (int)r.pick(std::vector<int>{2, 5, 40, 250});
+                for (auto &x : v) x = (int)r.below(m);
+                order_by_cmp(v, kind, r);
+                tailf(tl, sizeof tl);
+                printf("bsn %u %d %d %lu %d %s %s\n", (unsigned)r.pick(osz), kind, n && r.chance(70) ? v[r.below(n)] : (int)r.below(m + 2), when, (int)r.pick(std::vector<int>{1, 1, 4, 7, 9, 15, 2}), tl, join(v).c_str());
+            }
+}
+
 static void gen(rng &r, const std::string &tier)
 {
     bool th = tier == "thorough";
@@ -1593,6 +1878,7 @@ static void gen(rng &r, const std::string &tier)
     gen_bsearch(r, th);
     gen_bounds(r, th);
     gen_round3(r, th);
+    gen_nested(r, th);
 }
 
 int main(int argc, char **argv) { return main_(argc, argv, gen, run_op); }
